@@ -48,7 +48,8 @@ std::string dayOf(long long ms)
 }
 
 // ------------------------------------------------------------------------------ generation
-const char *kNames[] = { "app.log", "app.log", "app.log", "applog", "a+b.log", "app.v1.log", "app (1).log", "x.y.txt" };
+// ".app.log": a hidden file (dot file in a home directory) - directory listings that skip hidden entries would not see its rotated files
+const char *kNames[] = { "app.log", "app.log", "app.log", "applog", "a+b.log", "app.v1.log", "app (1).log", "x.y.txt", ".app.log" };
 
 QString uniqueText(int idx, int bytes, int flavour)
 {
@@ -90,7 +91,7 @@ QJsonObject generate()
     cfg["startup"] = startup;
     cfg["daily"] = daily;
     cfg["compress"] = compress;
-    cfg["name"] = kNames[pick(0, 7)];
+    cfg["name"] = kNames[pick(0, 8)];
     static const int grans[] = { 0, 0, 1, 1000, 2000 };
     cfg["gran"] = grans[pick(0, 4)];
     long long start = kEpoch0 + (long long)pick(0, 86399) * 1000 + pick(0, 999);
